@@ -1115,6 +1115,11 @@ StylesheetExecutionContextDefault::beginCreateXResultTreeFrag(XalanNode*    sour
     theFormatter->startDocument();
 
     pushCurrentNode(sourceNode);
+
+    // The fragment is a tree of its own: the restriction to text nodes
+    // of an enclosing xsl:attribute, xsl:comment or
+    // xsl:processing-instruction does not apply to its content.
+    pushCopyTextNodesOnly(false);
 }
 
 
@@ -1139,6 +1144,7 @@ StylesheetExecutionContextDefault::endCreateXResultTreeFrag()
 
     theXResultTreeFrag->setExecutionContext(this);
 
+    popCopyTextNodesOnly();
     popCurrentNode();
     popOutputContext();
 
